@@ -34,15 +34,14 @@ HEADER_C = "# SPDX-FileCopyrightText: 2020 Jane\n"
 
 def bounds(tier, seed):
     return {"classes": list(CLASSES), "uses": USES, "provisions": PROVS,
-            "representatives": "first representative of each class always; second representative in thorough, and for class index == seed % 7 in quick",
+            "representatives": "two representatives of each class",
             "whole_list_trees": 3, "spdx_identifiers": len(inv.SPDX)}
 
 
 def cases(tier, seed):
     for ci, cls in enumerate(CLASSES):
         reps = [CLASSES[cls]]
-        if tier == "thorough" or ci == seed % 7:
-            reps.append(CLASSES2[cls])
+        reps.append(CLASSES2[cls])
         for ident in reps:
             for u in USES:
                 for p in PROVS:
